@@ -90,7 +90,7 @@ Inductive value :=
 | VClass (a : addr)
 | VInst (a : addr)
 | VClosure (a : addr)
-| VNative (n : native_id)
+| VNative (n : native_id) (owner : addr)   (* owner: the module whose built-in global it is; xH for methods *)
 | VBound (a : addr)          (* closure bound to a receiver *)
 | VBoundNat (a : addr)       (* native bound to a receiver *)
 | VModule (a : addr)
